@@ -423,6 +423,9 @@ def run_case(case, verbose=False, hooks=None):
     w.sample_registered = sample_registered
     _w.W = w
     patches.reset_module_state()
+    if cfg.get("parent_depth"):
+        import loky.process_executor as _pe
+        _pe._CURRENT_DEPTH = cfg["parent_depth"]     # the simulated parent is itself a worker at that nesting depth
     fns = [(f"user{i}", _user_thread(ctx, i, ops)) for i, ops in enumerate(case["program"])]
     with warnings.catch_warnings(record=True) as wlist:
         warnings.simplefilter("always")
